@@ -442,10 +442,22 @@ fn check_structure(o: &Opts, refs: &Refs, h: &sam::Header, recs: &[RecordBuf], f
         let tag = if e.starts_with("eof") { "walk-eof-container" } else { "walk-container-length" };
         (tag.to_string(), e)
     })?;
-    let want_minor = if uses_31(&o.enc) { 1 } else { 0 };
-    if w.major != 3 || w.minor != want_minor {
-        return fail("walk-version", format!("{}.{} (expected 3.{want_minor})", w.major, w.minor));
+    // the version must be 3.0 or 3.1, and a 3.0 file must not hold a block compressed with a
+    // method that only exists in 3.1 (rANS Nx16 = 5, AAC = 6, fqzcomp = 7, name tokenizer = 8)
+    if w.major != 3 || w.minor > 1 {
+        return fail("walk-version", format!("{}.{}", w.major, w.minor));
     }
+    if w.minor == 0 {
+        for (ci, c) in w.containers.iter().enumerate() {
+            if let Some(b) = c.blocks.iter().find(|b| b.method >= 5) {
+                return fail(
+                    "cram-version-3.0-file-has-3.1-codec-block",
+                    format!("file definition says 3.0 but container {ci} has a block (type {} id {}) with compression method {}", b.ctype, b.cid, b.method),
+                );
+            }
+        }
+    }
+    let _ = uses_31;
     if w.containers.is_empty() {
         return fail("walk-no-header-container", "");
     }
@@ -732,21 +744,35 @@ fn classify(o: &Opts, refs: &Refs, h: &sam::Header, recs: &[RecordBuf]) -> V {
         _ => return v,
     };
     let (tag0, detail0) = (&tag0, &detail0);
-    if tag0 == "cram-fqzcomp-raw-size" || tag0 == "cram-intra-slice-mate-fields-recomputed" {
+    if tag0 == "cram-fqzcomp-raw-size" || tag0 == "cram-version-3.0-file-has-3.1-codec-block" || tag0 == "cram-intra-slice-mate-fields-recomputed" {
         return v;
     }
-    // 1. block codecs: the same stream without compression
+    // 1. block codecs: neutralise one codec class after the other (cumulatively) until the verdict
+    //    changes; the class whose removal changed it is the cause
     let mut o_cur = o.clone();
-    if o.enc != "all:none" {
-        let o2 = Opts { enc: "all:none".into(), ..o.clone() };
-        let v2 = plain(&o2, refs, h, recs);
-        if v2.key() != v.key() {
-            if let Some(f) = blame_codec(o, refs, h, recs) {
-                return V::Fail(f);
+    if o.enc != "all:none" && o.enc != "default" {
+        let classes = ["fqzcomp", "name-tokenizer", "aac", "ransnx16", "rans4x8-o1", "rans4x8-o0", "plain"];
+        let mut spec = o.enc.clone();
+        for class in classes {
+            let spec2 = neutralise(&spec, class);
+            if spec2 == spec {
+                continue;
             }
-            return V::Fail((format!("codec-dependent-{tag0}"), detail0.clone()));
+            let o2 = Opts { enc: spec2.clone(), ..o.clone() };
+            let v2 = plain(&o2, refs, h, recs);
+            if v2.key() != v.key() {
+                if class == "plain" {
+                    return V::Fail((format!("codec-dependent-{tag0}"), detail0.clone()));
+                }
+                let o_blame = Opts { enc: spec.clone(), ..o.clone() };
+                if let Some(f) = blame_codec(&o_blame, class, refs, h, recs) {
+                    return V::Fail(f);
+                }
+                return V::Fail((format!("cram-block-codec-{class}"), format!("removing the {class} encoders changes the verdict; {detail0}")));
+            }
+            spec = spec2;
+            o_cur = o2;
         }
-        o_cur = o2;
     }
     // 2. record classes, removed cumulatively
     let past_end = has_past_end_unmapped(refs, h);
@@ -858,7 +884,19 @@ fn codec_roundtrip(enc: &str, p: &[u8], lens: &[usize]) -> Result<(), String> {
 
 /// Finds a block payload (of the uncompressed rendition of the same stream) that its assigned
 /// codec does not round-trip when driven directly.
-fn blame_codec(o: &Opts, refs: &Refs, h: &sam::Header, recs: &[RecordBuf]) -> Option<Fail> {
+/// every encoder of `class` in the spec replaced by `none`
+fn neutralise(spec: &str, class: &str) -> String {
+    spec.split('+')
+        .map(|item| {
+            let (k, v) = item.split_once(':').unwrap();
+            let is = if class == "plain" { v != "none" } else { codec_class(v) == class };
+            if is { format!("{k}:none") } else { item.to_string() }
+        })
+        .collect::<Vec<_>>()
+        .join("+")
+}
+
+fn blame_codec(o: &Opts, class: &str, refs: &Refs, h: &sam::Header, recs: &[RecordBuf]) -> Option<Fail> {
     let o2 = Opts { enc: "all:none".into(), ..o.clone() };
     let file = match nv::guarded(AssertUnwindSafe(|| write_cram(&o2, refs, h, recs))) {
         Outcome::Done(Ok(f)) => f,
@@ -875,7 +913,7 @@ fn blame_codec(o: &Opts, refs: &Refs, h: &sam::Header, recs: &[RecordBuf]) -> Op
                 continue;
             }
             let enc = effective_encoder(&o.enc, b.ctype, b.cid);
-            if enc == "fqz" && b.cid != 28 {
+            if codec_class(&enc) != class || (enc == "fqz" && b.cid != 28) {
                 continue;
             }
             let p = &file[b.data.0..b.data.1];
